@@ -85,7 +85,7 @@ C06_Conservation ==
 C06_ErrIffDropped == Quiet /\ Pol = "latest" =>
     \A a \in h.sawOpen : (h.res[a] = "Err") => InSeq(h.dropped, a)
 C06_Exact ==         \* nothing taken by the reducer yet: the queue holds exactly what the policy names
-    h.recvd = <<>> /\ h.exitRecvd = 0 /\ chan["D"].open /\ lk["tx"] = "-" /\ Len(h.sent) > Cap =>
+    m.received = 0 /\ chan["D"].open /\ lk["tx"] = "-" /\ Len(h.sent) > Cap =>
         CASE Pol = "oldest" -> chan["D"].q = SubSeq(h.sent, Len(h.sent) - Cap + 1, Len(h.sent))
           [] Pol = "latest" -> chan["D"].q = SubSeq(h.sent, 1, Cap)
           [] OTHER -> TRUE
